@@ -144,8 +144,9 @@ Definition redis_safe (s : sstate) (o : op) : bool :=
           match pr with
           | None => all_or_none s (workload_data w a e)
           | Some p =>
-              match lookup (s_view s) (proc_key p) with
-              | Some (VCnt _) => negb (existsb (s_mem s) (map fst (workload_data w a e)))
+              (* the counter exists (without expiry) and none of the records does *)
+              match lookup (r_kv s) (proc_key p) with
+              | Some (mkS (VCnt _) None) => negb (existsb (s_mem s) (map fst (workload_data w a e)))
               | _ => false
               end
           end
